@@ -8,4 +8,5 @@ import (
 	_ "verif/h/c18"
 	_ "verif/h/c20"
 	_ "verif/h/pubsub"
+	_ "verif/h/subhist"
 )
